@@ -423,8 +423,7 @@ def run(ctx):
         sfx = (1, 0, 1)
         for (name, stname, params, coqf, tp, r, modp) in suffix:
             exprs.append('(%s) %s' % (coqf, zlist(list(tp) + list(sfx))))
-        open('/tmp/w1-randstat/exprs.txt','w').write('\n'.join(exprs))
-        res = ctx.coq_eval(['MPyC.RandomFns'], exprs, chunk=25)
+        res = ctx.coq_eval(['MPyC.RandomFns'], exprs, chunk=400)   # few files: coqc start-up dominates
         mism = 0
 
         def cmpval(m, r, modp):
